@@ -178,7 +178,11 @@ def enumerate_all(spec, limit=6000):
         for (w, t) in dyns:
             ch = choice[t]
             dyn_lists.append(dyn_options(ch) if ch is not None else [(None, None)])
-        for selc in itertools.product(*sel_opts) if sel_opts else [()]:
+        live_opts = []
+        for s, so in zip(used_sel, sel_opts):
+            users = [a["task"] for a in spec.get("assign", []) if a["resource"] == s["id"]]
+            live_opts.append(so if any(choice[t] is not None for t in users) else [frozenset()])
+        for selc in itertools.product(*live_opts) if live_opts else [()]:
             sels = {s["id"]: sc for s, sc in zip(used_sel, selc)}
             for dc in itertools.product(*dyn_lists) if dyn_lists else [()]:
                 dyn = dict(zip(dyns, dc))
@@ -247,6 +251,9 @@ def cand_pins(spec, c: Cand, sels, dyn, pin_horizon=False):
         if ts["kind"] == "variable":
             pins[f"d:{tid}"] = t.d
     for sid, chosen in sels.items():
+        users = [a["task"] for a in spec.get("assign", []) if a["resource"] == sid]
+        if not any(c.tasks[t].x for t in users):
+            continue  # the selection of an unscheduled task is not part of the schedule
         for s in spec.get("selects", []):
             if s["id"] == sid:
                 for w in s["workers"]:
